@@ -782,13 +782,51 @@ BERULE = ('grammars: curated families (LR(0)/SLR/LALR/LR(1) separators, nullable
           'the implementation runs in-process (ParseAndBuild built from /repo, tag verif), the extracted Coq model runs on the implementation\'s own grammar object; '
           'compared: item sets and goto edges up to renumbering, lookahead sets, every dense cell (decoded), warning multiset, every packed lookup. ')
 
-reg('C01', run_C01, ['Prop_C01.v'], I6RULE + 'non-trivial = distinct (grammar, input) accepted with at least one reduction; every accepted run is re-executed by the verified checker Oracle.replay')
-reg('C02', run_C02, ['Prop_C02.v'], I6RULE + 'non-trivial = distinct (grammar, sentence) of grammars whose model table has no cell with two candidates')
-reg('C03', run_C03, ['Prop_C03.v'], BERULE + 'non-trivial = grammars with >= 2 reductions one of which has >= 2 lookaheads; plus the real Digraph on random relations with cycles')
-reg('C04', run_C04, ['Prop_C04.v'], BERULE + 'non-trivial = grammars with precedence declarations; plus every pair of the finite (type, prec, assoc, index) grid through ResolveConflict/UseDefaultResolveConflict')
-reg('C05', run_C05, ['Prop_C05.v'], BERULE + 'evaluations = cells looked up through the packed arrays + random matrices through PackTable/UnPackTable + packed vs -u parser runs; non-trivial = grammars with a non-error default, matrices with an empty leading column')
-reg('C06', run_C06, ['Prop_C06.v'], I6RULE + 'evaluations = rejected runs; non-trivial = distinct (conflict-free grammar, non-sentence) whose error position is compared with an Earley viable-prefix computation')
-reg('C07', run_C07, ['Prop_C07.v'], I6RULE + 'actions: $$ = (c + sum coef_i*$i) mod 1000003 with random coefficients and random union fields per symbol; non-trivial = accepted inputs whose derivation uses a rule of length >= 2')
-reg('C08', run_C08, ['Prop_C08.v'], I6RULE + 'evaluations = (grammar, job, variant pair) comparisons of verdict, reductions with fetch stamps, value, fetch count; non-trivial = jobs with an accepted parse')
-reg('C09', run_C09, ['Prop_C09.v'], BERULE + 'non-trivial = grammars with >= 4 states and a state with >= 2 kernel items')
-reg('C15', run_C15, ['Prop_C15.v'], I6RULE + 'histories: 2-6 parses in a row on one parser (ParserInit before each; one shared context in object mode) compared with the same parses alone; nested parses on a second context started from inside GetToken; non-trivial = histories mixing accepted and rejected inputs, nested runs that happened')
+
+MODEL_NOTE = ('Trusted: Coq 8.16.1 kernel; extraction (ExtrOcamlBasic) + OCaml; coq/extract/driver.ml; the Go harness and python tools; the hand-written model, '
+              'whose agreement with /repo is re-checked by the correspondence run of this check on every run. Go/JS compilers and runtimes are outside the model. No axioms '
+              '(every Print Assumptions: Closed under the global context).')
+
+reg('C01', run_C01, ['Prop_C01.v'], I6RULE + 'non-trivial = distinct (grammar, input) accepted with at least one reduction; every accepted run is re-executed by the verified checker Oracle.replay',
+    technique='Coq theorem (LR driver invariant over the constructed automaton) + verified replay checker run on every accepted parse of the real generated parsers + model/implementation correspondence',
+    level_text='Proved in Coq for every grammar, every lookahead function, every precedence assignment and every token string: the table generated from the constructed LR(0) automaton drives the LR machine so that an accepted input has a parse tree with root = start symbol, yield = the input, post-order = the reductions (C01_table_sound); the array-and-pointer driver of the templates equals the abstract machine (C01_go_driver); the replay checker that is run on every accepted parse of the real five variants is sound (C01_replay_checker). The model pipeline (same functions as in the theorems, extracted) is compared with /repo at the LR(0), table, packed-lookup and generated-parser interfaces on every run.',
+    level_note=MODEL_NOTE)
+reg('C02', run_C02, ['Prop_C02.v'], I6RULE + 'non-trivial = distinct (grammar, sentence) of grammars whose model table has no cell with two candidates',
+    technique='Coq theorem (completeness of the LALR table by induction on parse trees, lookahead-annotated certificate) + sentences of conflict-free grammars fed to the real parsers + correspondence at I2-I6',
+    level_text='Proved in Coq: for the automaton built by the model, the executable DeRemer-Pennello lookaheads and the generated table, if no cell has two candidate actions then the LR machine accepts the yield of every valid parse tree with exactly its post-order as reductions (C02_complete). The real parsers (5 variants) are run on every sentence up to the length bound and on sampled longer ones of every conflict-free corpus grammar; a rejected sentence is the failing input. Completeness for the packed variants additionally rests on C05.',
+    level_note=MODEL_NOTE + ' Hypothesis of C02_complete: grammar well-formedness facts and productivity (first of every sequence non-empty), established by yaccgo\'s own checks (C12).')
+reg('C03', run_C03, ['Prop_C03.v'], BERULE + 'non-trivial = grammars with >= 2 reductions one of which has >= 2 lookaheads; plus the real Digraph on random relations with cycles',
+    technique='Coq theorem (executable DeRemer-Pennello sets = LR(1) lookaheads over all access paths, both inclusions) + comparison of the implementation\'s LA sets and warnings with the proved model on every corpus grammar',
+    level_text='Proved in Coq (C03_lookahead): for every grammar meeting the well-formedness facts, the model\'s lookahead list of every reduction in every state equals {t | exists access path gamma to the state with the LR(1) item [A -> alpha ., t] valid for gamma}, i.e. the union over the canonical LR(1) states with that core; C03_warning: a warning is raised exactly when a pair met by the pairwise resolution lacks a precedence. The implementation\'s LA sets and warning multiset are compared with the model on every corpus grammar; the real Digraph/Traverse/Union runs against transitive union on random relations with cycles.',
+    level_note=MODEL_NOTE + ' Digraph is modelled as transitive union (saturation), the SCC bookkeeping of Traverse is tied by the differential run only.')
+reg('C04', run_C04, ['Prop_C04.v'], BERULE + 'non-trivial = grammars with precedence declarations; plus every pair of the finite (type, prec, assoc, index) grid through ResolveConflict/UseDefaultResolveConflict',
+    technique='Coq theorems by case analysis on the resolution function + exhaustive differential run of the exported ResolveConflict/UseDefaultResolveConflict + dense-cell comparison with the model',
+    level_text='Proved in Coq for all precedences/associativities/indices: shift/reduce with precedence on both sides (higher wins; equal: left reduces, right shifts, nonassoc is an error; no warning), shift/reduce default = shift with warning, reduce/reduce default = the earlier rule with warning. The exported Go functions are run on the complete finite grid against the model; every dense cell and the warning multiset of every corpus grammar are compared with the model. Whole-expression grouping is covered by comparing the values computed by the real expression parsers with the model\'s (evaluation, not a theorem).',
+    level_note=MODEL_NOTE)
+reg('C05', run_C05, ['Prop_C05.v'], BERULE + 'evaluations = cells looked up through the packed arrays + random matrices through PackTable/UnPackTable + packed vs -u parser runs; non-trivial = grammars with a non-error default, matrices with an empty leading column',
+    technique='Coq theorem (first-fit row displacement with check vector is lossless for every matrix and row order) + every (state,symbol) lookup through the implementation\'s packed arrays vs its dense table + random matrices through PackTable/UnPackTable + packed vs -u parsers',
+    level_text='Proved in Coq for every matrix and every duplicate-free row order: lookup through the packed arrays returns the cell (C05_lookup_core). On every run every cell of every corpus grammar is looked up through the implementation\'s own packed arrays (template Action() logic) and compared with GTable, random matrices go through utils.PackTable/UnPackTable, and packed vs -u generated parsers are compared on all inputs.',
+    level_note=MODEL_NOTE)
+reg('C06', run_C06, ['Prop_C06.v'], I6RULE + 'evaluations = rejected runs; non-trivial = distinct (conflict-free grammar, non-sentence) whose error position is compared with an Earley viable-prefix computation',
+    technique='Coq theorem (no Crash / nil return under the table certificate) + outcome classification and fetch count of every rejected run of the real parsers vs Earley viable-prefix computation and the model',
+    level_text='Proved in Coq: under the certificate satisfied by generated tables the LR machine never ends in Crash or a nil return; it accepts, reports a syntax error or is still running (C06_no_crash). Every rejected run of the five real variants must use the documented error channel; for conflict-free grammars the number of tokens requested at the error must be (first token that cannot continue a sentence)+1 as computed by an Earley recogniser. Halting on non-sentences is checked by a reduction limit, not proved (partial).',
+    level_note=MODEL_NOTE + ' The Earley recogniser (python) is untrusted search: a case it flags is confirmed against the model.')
+reg('C07', run_C07, ['Prop_C07.v'], I6RULE + 'actions: $$ = (c + sum coef_i*$i) mod 1000003 with random coefficients and random union fields per symbol; non-trivial = accepted inputs whose derivation uses a rule of length >= 2',
+    technique='Coq theorem (value returned = bottom-up evaluation over the parse tree, Dollar slice addressing for every rule length) + verified replay of every accepted run of the real parsers with random linear actions',
+    level_text='Proved in Coq: an accepted run returns veval of the parse tree whose post-order is the reduction sequence, for rules of every length including 0 (C07_values); the replay checker is sound (C07_replay_checker). Every accepted run of the five real variants with random linear actions and random union fields is replayed by the extracted checker and its value compared.',
+    level_note=MODEL_NOTE + ' User actions are modelled as pure functions of the $n values.')
+reg('C08', run_C08, ['Prop_C08.v'], I6RULE + 'evaluations = (grammar, job, variant pair) comparisons of verdict, reductions with fetch stamps, value, fetch count; non-trivial = jobs with an accepted parse',
+    technique='Coq theorem (array-and-pointer driver simulates the abstract machine; packed lookup = dense cell) + pairwise comparison of the five real variants on identical inputs',
+    level_text='Proved in Coq: the concrete driver shared by all templates equals the abstract machine on every table/input/fuel (C08_array_driver) and packed lookup equals the dense cell (C08_packed_lookup). All five real variants are compared pairwise on every corpus input (verdict class, reductions with fetch stamps, value, fetch count).',
+    level_note=MODEL_NOTE)
+reg('C09', run_C09, ['Prop_C09.v'], BERULE + 'non-trivial = grammars with >= 4 states and a state with >= 2 kernel items',
+    technique='Coq theorems about the executable closure/goto worklist (structure, closure completeness, goto completeness, reachability) + implementation automaton compared with the model up to renumbering',
+    level_text='Proved in Coq for the executable worklist construction: items of a target are advanced items or closure items, state 0 is the closure of the start item, the start item occurs only in state 0, items valid and duplicate-free, every edge justified, every state reachable (C09_structural, C09_more), closure closed under prediction (C09_closure_complete), every symbol after a dot has an edge (C09_goto_complete). The implementation\'s LR0Closure is compared with the model as a set of item sets with goto edges (bijection through item sets, state 0 fixed) and checked for duplicate states.',
+    level_note=MODEL_NOTE + ' "No two equal states" is checked on the implementation output on every run and not yet a Coq theorem.')
+reg('C15', run_C15, ['Prop_C15.v'], I6RULE + 'histories: 2-6 parses in a row on one parser (ParserInit before each; one shared context in object mode) compared with the same parses alone; nested parses on a second context started from inside GetToken; non-trivial = histories mixing accepted and rejected inputs, nested runs that happened',
+    technique='Coq theorems (re-initialisation in global and object mode makes the run independent of the previous state) + parse histories and nested parses on the real parsers vs the same parses alone and vs the model',
+    level_text='Proved in Coq: after ParserInit the run equals the run from the fresh state, in global mode for every previous state and in object mode for every state whose cell 0 holds the initial entry (C15_reinit_global, C15_reinit_object). Histories of 2-6 parses mixing accepted and rejected inputs on one parser/context, and parses on a second context started in the middle of another parse, are run on the real parsers and compared with the same parses alone. Data races are runtime behaviour outside the model (partial).',
+    level_note=MODEL_NOTE)
+
+NOT_CLAIMED = {pid: 'check under construction: the model and harness for this property are not registered yet (see DESIGN.md section 5.%s); no claim is made' % pid
+               for pid in ['C10', 'C11', 'C12', 'C13', 'C14', 'C16', 'C17', 'C18', 'C19']}
